@@ -1285,4 +1285,149 @@ theorem check_sound_syntax (st : Style) (cols lines : Nat) (s : List Char)
       · rw [← groups_unparse, ← hu]
         simp only [Sentence.groups, Groups.unparse, hst, Option.map_some, hsu]
 
+
+/-! ## Part D — which error for which non-sentence -/
+
+def mainText (g : Groups) : List Char :=
+  g.hAlign.toList ++ (g.width ++ (unparseVert g.vert ++ alphaU g.alpha))
+
+theorem unparse_split (g : Groups) : g.unparse = mainText g ++ styleU g.style := by
+  simp [Groups.unparse, mainText, List.append_assoc]
+
+theorem np_halign {c : Char} (h : isHAlign c = true) : (c != '+') = true := by
+  simp only [bne_iff_ne]; rintro rfl; revert h; decide
+theorem np_valign {c : Char} (h : isVAlign c = true) : (c != '+') = true := by
+  simp only [bne_iff_ne]; rintro rfl; revert h; decide
+theorem np_hex {c : Char} (h : isHex c = true) : (c != '+') = true := by
+  simp only [bne_iff_ne]; rintro rfl; revert h; decide
+theorem np_digit {c : Char} (h : isDigit c = true) : (c != '+') = true := np_hex (digit_is_hex h)
+
+theorem mainText_noplus (g : Groups) (hg : g.WfRaw) : ∀ c ∈ mainText g, (c != '+') = true := by
+  obtain ⟨h1, h2, h3, h4, _⟩ := hg
+  intro c hc
+  simp only [mainText, List.mem_append] at hc
+  rcases hc with hc | hc | hc | hc
+  · cases hh : g.hAlign with
+    | none => simp [hh] at hc
+    | some a => simp [hh] at hc; subst hc; rw [hh] at h1; exact np_halign (by simpa using h1)
+  · exact np_digit ((List.all_eq_true.1 h2) c hc)
+  · cases hv : g.vert with
+    | none => simp [hv, unparseVert] at hc
+    | some v =>
+      obtain ⟨va, ht⟩ := v
+      rw [hv] at h3
+      simp only [vertWf, Option.all_some, Bool.and_eq_true] at h3
+      simp only [hv, unparseVert, List.mem_cons, List.mem_append] at hc
+      rcases hc with (rfl | hc) | hc
+      · decide
+      · cases va with
+        | none => simp at hc
+        | some a => simp at hc; subst hc; exact np_valign (by simpa using h3.1)
+      · exact np_digit ((List.all_eq_true.1 h3.2) c hc)
+  · cases ha : g.alpha with
+    | none => simp [ha, alphaU] at hc
+    | some a =>
+      rw [ha] at h4
+      cases a with
+      | disabled => simp [ha, alphaU, AlphaSyn.unparse] at hc; subst hc; decide
+      | termbg => simp [ha, alphaU, AlphaSyn.unparse] at hc; subst hc; decide
+      | thr d =>
+        simp [alphaWf] at h4
+        simp only [ha, alphaU, AlphaSyn.unparse, List.mem_cons] at hc
+        rcases hc with rfl | rfl | hc
+        · decide
+        · decide
+        · exact np_digit (h4.2 c hc)
+      | hex x =>
+        simp [alphaWf] at h4
+        simp only [ha, alphaU, AlphaSyn.unparse, List.mem_cons] at hc
+        rcases hc with rfl | hc
+        · decide
+        · exact np_hex (h4.2 c hc)
+
+theorem splitPlus_unparse (g : Groups) (hg : g.WfRaw) : splitPlus g.unparse = (mainText g, g.style) := by
+  have h := takeWhile_append_stop (p := (· != '+')) (mainText g) (styleU g.style) (mainText_noplus g hg)
+    ((styleU_head g.style).mono (by rintro c rfl; decide))
+  rw [unparse_split]
+  simp only [splitPlus, h.1, h.2]
+  cases g.style <;> rfl
+
+theorem mainPart_of_groups (g : Groups) (hg : g.WfRaw) (hv : g.vert ≠ some (none, [])) :
+    MainPart (mainText g) := by
+  refine ⟨⟨g.hAlign, g.width, g.vert, g.alpha, none⟩, rfl, wfMain_of_groups g hg hv none, ?_⟩
+  simp only [Sentence.unparse, mainText, List.append_nil]
+  cases g.alpha <;> rfl
+
+/-- (⇒) whatever is not rejected as an invalid format specifier has a well-formed main part before
+    its first `+`, and a non-empty, line-break-free text after it (if there is a `+`) -/
+theorem not_invalid_imp (st : Style) (cols lines : Nat) (s : List Char)
+    (h : checkFormatSpec st cols lines s ≠ .error .invalidSpec) :
+    MainPart (splitPlus s).1 ∧ ∀ t, (splitPlus s).2 = some t → t ≠ [] ∧ '\n' ∉ t := by
+  cases hf : fmtMatch s with
+  | none => simp [checkFormatSpec, hf] at h
+  | some g =>
+    obtain ⟨hg, hu⟩ := fmtMatch_sound s g hf
+    have hn : noVertMatch s = false := by
+      cases hnn : noVertMatch s with
+      | false => rfl
+      | true => simp [checkFormatSpec, hf, hnn] at h
+    have hv : g.vert ≠ some (none, []) := by
+      have := noVertMatch_unparse g hg
+      rw [hu, hn] at this
+      simpa using this.symm
+    rw [← hu, splitPlus_unparse g hg]
+    exact ⟨mainPart_of_groups g hg hv, hg.2.2.2.2⟩
+
+/-- the groups of a main part followed by `+t` -/
+theorem check_main_style (st : Style) (cols lines : Nat) (s t : List Char)
+    (hm : MainPart (splitPlus s).1) (ht : (splitPlus s).2 = some t) (hne : t ≠ []) (hnl : '\n' ∉ t) :
+    ∃ sen : Sentence, sen.style = none ∧ sen.wfMain = true ∧ s = sen.unparse ++ '+' :: t ∧
+      checkFormatSpec st cols lines s =
+        (match checkStyleFormatSpec st t with
+          | .error e => .error e
+          | .ok args => .ok ⟨(sen.denote cols lines).fmt, (sen.denote cols lines).alpha, args⟩) := by
+  obtain ⟨sen, hs, hw, hu⟩ := hm
+  have hsplit : s = (splitPlus s).1 ++ '+' :: t := by
+    have := List.takeWhile_append_dropWhile (p := (· != '+')) (l := s)
+    simp only [splitPlus] at ht ⊢
+    cases hd : s.dropWhile (· != '+') with
+    | nil => simp [hd, restToStyle] at ht
+    | cons c r =>
+      simp only [hd, restToStyle, Option.some.injEq] at ht
+      subst ht
+      have hc := dropWhile_head (p := (· != '+')) s c (by rw [hd]; rfl)
+      have : c = '+' := by simpa using hc
+      subst this
+      rw [← hd]; exact this.symm
+  refine ⟨sen, hs, hw, by rw [hu]; exact hsplit, ?_⟩
+  let g : Groups := ⟨sen.hAlign, sen.width, sen.vert, sen.alpha, some t⟩
+  have hg0 := groups_wf st sen hw (by simp [hs])
+  have hg : g.WfRaw := ⟨hg0.1, hg0.2.1, hg0.2.2.1, hg0.2.2.2.1, by
+    intro t' h'; simp only [g, Option.some.injEq] at h'; subst h'; exact ⟨hne, hnl⟩⟩
+  have hgu : g.unparse = s := by
+    rw [hsplit, ← hu]
+    simp only [Groups.unparse, g, Sentence.unparse, hs, styleU, List.append_nil, List.append_assoc]
+    cases sen.alpha <;> simp [alphaU]
+  have hf := fmtMatch_complete g hg
+  have hn := noVertMatch_unparse g hg
+  rw [hgu] at hf hn
+  have hv : sen.vert ≠ some (none, []) := by
+    simp only [Sentence.wfMain, Bool.and_eq_true] at hw
+    intro hv; have h3 := hw.1.2; rw [hv] at h3; simp at h3
+  have hn' : noVertMatch s = false := by rw [hn]; simpa [g] using hv
+  have hfm := formatting_sentence cols lines sen hw
+  simp only [checkFormatSpec, hf, hn', Bool.false_eq_true, if_false, g, hfm, alphaOf_denote cols lines sen]
+  cases checkStyleFormatSpec st t <;> rfl
+
+theorem unparse_with_style (sen : Sentence) (hs : sen.style = none) (ss : StyleSen) :
+    ({ sen with style := some ss } : Sentence).unparse = sen.unparse ++ '+' :: ss.unparse := by
+  simp only [Sentence.unparse, hs, List.append_nil, List.append_assoc]
+
+theorem splitPlus_none (s : List Char) (h : (splitPlus s).2 = none) : (splitPlus s).1 = s := by
+  simp only [splitPlus] at h ⊢
+  have := List.takeWhile_append_dropWhile (p := (· != '+')) (l := s)
+  cases hd : s.dropWhile (· != '+') with
+  | nil => rw [hd, List.append_nil] at this; exact this
+  | cons c r => simp [hd, restToStyle] at h
+
 end TIV.C19
